@@ -120,8 +120,7 @@ theorem C19_nothing_else_from_request (o o' : Ora) (path : String) (insecure : B
   cases insecure <;> simp [Lib.hasPrefix, String.toList_append, List.append_assoc]
 
 theorem C19_source_current :
-    FactsUtil.sameHashes ["provider.issuerFromForwardedOrHost", "provider.hostFromForwarded", "provider.StaticIssuer", "provider.NewProvider",
-      "provider.IssuerInterceptor.setIssuerCtx", "provider.IssuerFromContext"] = true := by decide
+    FactsUtil.sameHashes ["provider.NewProvider", "provider.IssuerInterceptor.setIssuerCtx", "provider.IssuerFromContext"] = true := by decide
 
 /-- non-vacuity -/
 def ora0 : Ora where
